@@ -70,3 +70,8 @@ def _canon(v) -> str:
 def reg_call(ka, kb, other=0):
     """Task for the registration-concurrency histories (two key arguments, one non-key argument)."""
     return (ka, kb, other)
+
+
+def tree_task(spec_json):
+    """Body of the generated call trees / workloads of the thread-runner world."""
+    return WORLD.body(spec_json)
